@@ -10,6 +10,7 @@ import HdwModel.Model.Hdk
 import HdwModel.Driver.NfkdData
 import HdwModel.Model.Tx
 import HdwModel.Model.TypedData
+import HdwModel.Model.Cli
 import HdwModel.Driver.Judge
 import HdwModel.Driver.JudgeTx
 import HdwModel.Driver.JudgeTd
@@ -55,6 +56,82 @@ def txFields : Tx.Tx → List String
     ["eip2930", nat256hex c, nat256hex n, nat256hex gp, nat256hex g, optAddrStr to, nat256hex v, hx d, alStr al]
   | .eip1559 c n p f g to v d al =>
     ["eip1559", nat256hex c, nat256hex n, nat256hex p, nat256hex f, nat256hex g, optAddrStr to, nat256hex v, hx d, alStr al]
+
+def selArg (s : String) : Option Cli.Selector :=
+  if s == "default" then some .default else
+  match s.splitOn ":" with
+  | ["idx", t] => (utf8Arg t).map .index
+  | ["path", t] => (utf8Arg t).map .path
+  | ["both", a, b] => match utf8Arg a, utf8Arg b with
+    | some a, some b => some (.both a b)
+    | _, _ => none
+  | _ => none
+
+def acctArg (mn pw sel : String) : Option Cli.Account :=
+  match utf8Arg mn, utf8Arg pw, selArg sel with
+  | some m, some p, some s => some ⟨m, p, s⟩
+  | _, _, _ => none
+
+def streamArg (s : String) : Option (List (Option Bytes)) :=
+  if s == "-" then some [] else
+  (s.splitOn ",").mapM fun t => if t == "fail" then some none else (unhex t).map some
+
+def cliOut (r : Res Bytes) : Resp := ofRes r fun b => [hx b]
+
+def runCli (env : Env) (parts : List String) : Resp :=
+  let X : Cli.Ctx Prim.Secp.Pt := ⟨P, CV, env.nfkd.nfkd⟩
+  match parts with
+  | ["cli.address", mn, pw, sel] => match acctArg mn pw sel with
+    | some a => cliOut (Cli.address X a)
+    | none => .harness "bad arg"
+  | ["cli.export", mn, pw, sel] => match acctArg mn pw sel with
+    | some a => cliOut (Cli.exportKey X a)
+    | none => .harness "bad arg"
+  | ["cli.public_key", mn, pw, sel] => match acctArg mn pw sel with
+    | some a => cliOut (Cli.publicKey X a)
+    | none => .harness "bad arg"
+  | ["cli.hash_data", d] => match unhex d with
+    | some d => .ok [hx (Cli.hashData X d)]
+    | none => .harness "bad arg"
+  | ["cli.hash_message", d] => match unhex d with
+    | some d => .ok [hx (Cli.hashMessage X d)]
+    | none => .harness "bad arg"
+  | ["cli.hash_tx", j, sig] => match unhex j, (if sig == "none" then some none else (utf8Arg sig).map some) with
+    | some j, some sig => cliOut (Cli.hashTx X j sig)
+    | _, _ => .harness "bad arg"
+  | ["cli.hash_td", j, mh] => match unhex j with
+    | some j => cliOut (Cli.hashTypedData X j (mh == "1"))
+    | none => .harness "bad arg"
+  | ["cli.sign_message", mn, pw, sel, m] => match acctArg mn pw sel, unhex m with
+    | some a, some m => cliOut (Cli.signMessage X a m)
+    | _, _ => .harness "bad arg"
+  | ["cli.sign_raw", mn, pw, sel, d] => match acctArg mn pw sel, utf8Arg d with
+    | some a, some d => cliOut (Cli.signRaw X a d)
+    | _, _ => .harness "bad arg"
+  | ["cli.sign_td", mn, pw, sel, j] => match acctArg mn pw sel, unhex j with
+    | some a, some j => cliOut (Cli.signTypedData X a j)
+    | _, _ => .harness "bad arg"
+  | ["cli.sign_tx", mn, pw, sel, j, so, allow] => match acctArg mn pw sel, unhex j with
+    | some a, some j => cliOut (Cli.signTx X a j (so == "1") (allow == "1"))
+    | _, _ => .harness "bad arg"
+  | ["cli.new", len, stream] => match utf8Arg len, streamArg stream with
+    | some len, some st =>
+      let oracle : Nat → Option Bytes := fun k => match st with
+        | some b :: _ => if b.length ≥ k then some (b.take k) else none
+        | _ => none
+      cliOut (Cli.newMnemonic X len oracle)
+    | _, _ => .harness "bad arg"
+  | ["cli.new_vanity", len, pre, pw, sel, stream] =>
+    match utf8Arg len, utf8Arg pre, utf8Arg pw, selArg sel, streamArg stream with
+    | some len, some pre, some pw, some sel, some st =>
+      let r : Res Bytes :=
+        match parseUInt 64 len with
+        | none => .err "length"
+        | some n => (Cli.parsePrefix pre).bind fun p => Cli.vanitySearch X n p pw sel st
+      cliOut r
+    | _, _, _, _, _ => .harness "bad arg"
+  | op :: _ => .harness s!"unknown op {op}"
+  | [] => .harness "empty"
 
 def runOp (env : Env) (parts : List String) : Resp :=
   match parts with
@@ -237,7 +314,7 @@ def runOp (env : Env) (parts : List String) : Resp :=
     match unhex d with
     | some b => ofRes (Cli.hexDecodeCmd b) fun o => [hx o]
     | none => .harness "bad arg"
-  | op :: _ => .harness s!"unknown op {op}"
+  | op :: rest => if op.startsWith "cli." then runCli env (op :: rest) else .harness s!"unknown op {op}"
   | [] => .harness "empty"
 
 def runModelLine (env : Env) (line : String) : String :=
